@@ -19,7 +19,7 @@ PROOF_LEVEL = {
     "C10": "C10x_history / C10x_region_history (the same over the extended alphabet FsExt.xop: the crashed media of an extended call are those of its base call, xcrash_disks_base) and C10_history is a theorem about the layer-B model: in any history of API calls, the medium after every prefix of the block-write sequence of every call (read off the device log; writes atomic and ordered) satisfies the crash invariant crash_inv (tree over the raw disk, unique names, clean tails, dot entries, chains sound and pairwise disjoint, sub-directories with initialised clusters; residue = lost chains and one stale size), whatever the free clusters held; step_crash proved for all 26 operations and outcomes. The extracted sound decider crash_inv_fast and the independent python checker both run on the implementation's crashed media. Not covered by a theorem: that the mount call itself succeeds on the crashed medium (region theorem: MBR/boot sector unchanged)",
     "C09": "C09x_history (the same over the extended alphabet FsExt.xop; a drop of a handle on the file counts as targeting it) and C09_history is a theorem about the layer-B model: a file present on the medium (path, entry, bytes) is present unchanged between calls and on every crashed medium of every later call of any history until a call targets it (op_targets); step_keeps_flushed proved for all 26 operations; with the C02 flush theorem (a successful flush/close puts exactly the API's view on the medium) this is the property for the model. The python oracle replays every prefix of the implementation's write log and re-reads flushed files with an independent reader",
     "C16": "recorded finding three-fats (C16_three_fats_refuted: a valid volume with BPB_NumFATs >= 3 mounts with no second FAT recorded, update_fat then writes copy 0 only); for the FAT copy the volume record knows (complete for 1 and 2 FATs): C16x_history / C16x_history_flush (the same over the extended alphabet FsExt.xop: a dropped dirty File stores the record like a closed one) and C16_history (mirroring of every FAT copy, truthful-stays-truthful, unknown-stays-unknown, hint unknown or in range - after every call of every history of API calls) and C16_history_flush (the FAT32 information sector after a flush/close of a dirty file holds exactly the in-memory record: the number of free FAT entries when the count was truthful, untouched when unknown) are theorems about the layer-B model; the mount code establishes the hint range (C16_mount_hint_in_range, D40 repaired); no call panics or fails for want of space while a free entry exists whatever record was found at mount (C03_history, PrAlloc/PrCount). Recorded finding: stale-hint-kept",
-    "C03": "C03s_history (sessions: for a manager with MAX_VOLUMES = 1 - the crate's default - OpenVol / CloseVol / Drop of a Volume are INSIDE the history: any number of mount / use / unmount cycles over the full extended alphabet keeps the session invariant - mounted: fs_inv with a record that is a relabel of the reference geometry, unmounted: a fresh manager over a medium with disk_inv and the information-sector signatures, so that the next mount succeeds -, no call panics, every write lies in a region of the volume; C03s_from_init starts it from init_state on a decider-accepted medium), C03x_history (the same for the extended alphabet FsExt.xop: + iterate_dir_lfn, Drop of the File / Directory wrappers, Directory::change_dir - whose unwrap is proved unreachable -, the expect()ing File::length/offset/is_eof under the guard that the wrapper's handle is open) and C03_history / C03_after_every_call / C03_sound_after_history are theorems about the layer-B model for every history of API calls (all 26 operations, every outcome incl. refusals, DiskFull and NotEnoughSpace half-way failures): the global invariant fs_inv - directory tree over the raw disk, unique names, clean tail after the end marker, dot entries, chains in range / acyclic / end-marked / never through free-reserved-bad entries / pairwise disjoint / long enough for the size, pending chains of open files - holds after every call. Scope stated in the theorems: one mounted volume, no device faults, names outside the recorded class D29, fewer than 2^32 handle generations. The tie to the crate is the trace-exact correspondence; the extracted decider fs_inv_b (sound: fs_inv_b_sound) and the independent python checker both run on the implementation's images",
+    "C03": "C15_valid_fs / C15_fs_mount_total (mount_bridge: the file-system model's open_raw_volume equals the mount group's MountModel.mount on every byte medium - C15's theorems transfer to this model), C03s_history (sessions: for a manager with MAX_VOLUMES = 1 - the crate's default - OpenVol / CloseVol / Drop of a Volume are INSIDE the history: any number of mount / use / unmount cycles over the full extended alphabet keeps the session invariant - mounted: fs_inv with a record that is a relabel of the reference geometry, unmounted: a fresh manager over a medium with disk_inv and the information-sector signatures, so that the next mount succeeds -, no call panics, every write lies in a region of the volume; C03s_from_init starts it from init_state on a decider-accepted medium), C03x_history (the same for the extended alphabet FsExt.xop: + iterate_dir_lfn, Drop of the File / Directory wrappers, Directory::change_dir - whose unwrap is proved unreachable -, the expect()ing File::length/offset/is_eof under the guard that the wrapper's handle is open) and C03_history / C03_after_every_call / C03_sound_after_history are theorems about the layer-B model for every history of API calls (all 26 operations, every outcome incl. refusals, DiskFull and NotEnoughSpace half-way failures): the global invariant fs_inv - directory tree over the raw disk, unique names, clean tail after the end marker, dot entries, chains in range / acyclic / end-marked / never through free-reserved-bad entries / pairwise disjoint / long enough for the size, pending chains of open files - holds after every call. Scope stated in the theorems: one mounted volume, no device faults, names outside the recorded class D29, fewer than 2^32 handle generations. The tie to the crate is the trace-exact correspondence; the extracted decider fs_inv_b (sound: fs_inv_b_sound) and the independent python checker both run on the implementation's images",
     "C04": "C04_history is a theorem about the layer-B model for every history of API calls: the complete device-write list lies in the regions of the volume (FAT copies, FAT16 root region, data area, FAT32 information sector; C04_regions_not_outside: never MBR, boot sector, other partition, past the last cluster); C04_mount_layout / C04_open_volume_layout derive the region map from the checks of the mount code; per-call byte frames (slot, FAT entry, high nibble, info-sector fields, data range) are the C04_*_frame theorems. Recorded finding: the partition size is not compared with the BPB total (D38)",
     "C05": "C05_history (after any history of API calls with no file left open, in-use clusters = clusters on the chains of the live tree), C05_used_is_tree_and_pending (with open files: plus their pending chains), C05_delete_frees, C05_capacity (exactly free_entries allocations succeed, then NotEnoughSpace with nothing changed), C05_fill_free_refill for every number of cycles, and mgr_write_spec (Ok / DiskFull with exactly the stored prefix readable / NotEnoughSpace) are theorems about the layer-B model for all inputs",
     "C06": "C06_iterate_lfn_entries / _slots / _delivered / _listing / _total (VolumeManager::iterate_dir_lfn reports exactly the entries of iterate_dir, sees exactly the delivered slots of the directory, its long names are LfnModel.listing of those slots - so the C17 listing theorems apply to the file-system model - and it never panics from a state of the invariant) and C06_iterate / C06_find / C06_find_listed / C06_open_dir are complete theorems about the layer-B model: for every directory contents, every chain (FAT16 root, FAT16/FAT32 chains) and every state with a working device and a coherent cache, the listing is exactly the valid slots before the end marker in on-disk order, lookup is the first match, open_dir succeeds exactly for listed directory entries and designates the entry's cluster (0 -> root, \".\" -> the same directory)",
@@ -391,6 +391,22 @@ def check_C01(run, replay=None):
     corpus(env, rng, {"maxsize"})
     truncate_reuse_scripts(env, rng, 6 if run.tier == "quick" else 30)
     wrapper_scripts(env, rng, max(n // 6, 8), weights=dict(write=10, read=8, seek=5, wquery=6, dropfile=5, iterlfn=1, chdir=2))
+    # directed: read block 0 of a file, fail the read of block 1 (the device scribbles the buffer), go back to block 0 and
+    # read / partly overwrite it; the fault index sweeps over the calls around the second read
+    for j, gname in enumerate(["f16_min", "f32_min"]):
+        geo = fsgen.geometry(rng, None, [gname])
+        img, meta = fsgen.build_image(rng, geo, populate=1, ensure_big=True)
+        path, dev = env.new_image(img, "stale%d" % j)
+        meta = dict(meta); meta["dev0"] = dev
+        hxn = fsgen.hx
+        ops = ["openvol %d -> $v" % meta["slot"], "openroot $v -> $r", "open $r %s RWA -> $f" % hxn("BIGGER.BIN"), "seekstart $f 0", "read $f 512",
+               "read $f 512", "seekstart $f 0", "read $f 512", "seekstart $f 512", "read $f 100", "seekstart $f 7", "write $f 4 9", "seekstart $f 0", "read $f 600", "close $f"]
+        for fi in range(3, 16 if run.tier == "quick" else 40):
+            env.add_script("stale", path, (1, 4, 4), ops, 5000, [fi], meta, raii=False)
+    # histories with ONE transient device fault: whatever the calls AFTER the failed one read must still be the model's
+    # bytes (a cache that keeps a stale tag after a failed read would hand out another block's contents)
+    F.std_scenarios(env, rng, max(n // 5, 12), fsgen.profile(weights=dict(write=12, read=14, seek=10, open=6, close=3, flush=2, query=2, io=2, delete=0, mkdir=0, bad=0, remount=0)),
+                    nops=(25, 60), per_image=2, faults_fn=lambda r, ops: [10 + r.below(200)])
     env.run_all()
     bad = 0
     for sc in env.scripts:
@@ -695,6 +711,25 @@ def check_C03(run, replay=None):
     F.std_scenarios(env, rng, n // 8, prof, nops=(20, 50), img_kw=dict(big_dir=True, free_left=2))
     F.std_scenarios(env, rng, max(n // 10, 4), fsgen.profile(weights=dict(mkdir=10, opendir=6, open=10, write=8, close=6)), nops=(15, 35), want=["f32_root5"], img_kw=dict(free_left=12), per_image=2)
     grow_scripts(env, rng, max(n // 10, 4), big=True)
+    # directed: delete the entry that sits in the LAST slot of a directory block while live entries follow in the next
+    # block (multi-block sub-directory and FAT16 root), then list / create
+    for j, gname in enumerate(["f16_min", "f32_min", "f16_spc2"]):
+        geo = fsgen.geometry(rng, None, [gname])
+        img, meta = fsgen.build_image(rng, geo, populate=1, big_dir=True)
+        path, dev = env.new_image(img, "slot15-%d" % j)
+        meta = dict(meta); meta["dev0"] = dev
+        hxn = fsgen.hx
+        g0 = fatck.mount(dev, meta["slot"])
+        tree0 = fatck.flatten(fatck.fsck(dev, g0, read_data=False)[1]) if g0 else {}
+        def dotted(e_):
+            b_, x_ = e_.name[:8].decode("latin-1").rstrip(), e_.name[8:].decode("latin-1").rstrip()
+            return b_ + ("." + x_ if x_ else "")
+        victims = [dotted(e_) for p_, e_ in tree0.items() if p_.startswith("/SUB/") and e_.offset == 480 and not e_.is_dir][:3]
+        ops = ["openvol %d -> $v" % meta["slot"], "openroot $v -> $r", "opendir $r %s -> $s" % hxn("SUB")]
+        for v_ in victims:
+            ops += ["delete $s %s" % hxn(v_), "iter $s"]
+        ops += ["open $s %s RWC -> $n" % hxn("AFTER.X"), "write $n 10 1", "close $n", "iter $s", "find $s %s" % hxn("F%d.X" % (16 * meta["spc"] * 2 + 1))]
+        env.add_script("slot15-%03d" % j, path, (1, 4, 4), ops, 5000, (), meta)
     # histories with ONE transient device fault ("after every API call returns (success or error)"): the failed call may
     # leave what a power cut leaves, nothing worse, and the calls after it must not make it worse
     F.std_scenarios(env, rng, max(n // 5, 10), fsgen.profile(weights=dict(write=14, open=12, close=6, delete=5, mkdir=5, flush=3, read=3, seek=2, find=2, iter=2, bad=0, remount=0, io=0)),
@@ -962,6 +997,19 @@ def check_C06(run, replay=None):
     grow_scripts(env, rng, max(n // 10, 4), big=True)
     wrapper_scripts(env, rng, max(n // 4, 12), weights=dict(iterlfn=12, chdir=8, iter=6, find=5, opendir=5, delete=4, open=6, write=2, read=0, seek=0, wquery=1))
     special_name_scripts(env, rng, 4 if run.tier == "quick" else 16)
+    # FAT16 roots whose entry count is not a multiple of 16, filled to the last slot (live entries in the partial block)
+    for j, gname in enumerate(["f16_root500", "f16_spc2"] * (1 if run.tier == "quick" else 3)):
+        geo = fsgen.geometry(rng, None, [gname])
+        img, meta = fsgen.build_image(rng, geo, populate=1, full_root=True)
+        path, dev = env.new_image(img, "fullroot%d" % j)
+        meta = dict(meta); meta["dev0"] = dev
+        last = geo[1]["root_entries"]
+        hxn = fsgen.hx
+        ops = ["openvol %d -> $v" % meta["slot"], "openroot $v -> $r", "iter $r", "iterlfn $r 40"]
+        for nm in ["R%d.F" % i for i in (0, 1, last // 2)] + [os.path.basename(p_) for p_ in sorted(meta["files"]) if p_.count("/") == 1][-3:]:
+            ops += ["find $r %s" % hxn(nm)]
+        ops += ["delete $r %s" % hxn("R1.F"), "iter $r", "open $r %s RWC -> $n" % hxn("NEWLAST.F"), "close $n", "iter $r"]
+        env.add_script("fullroot%03d" % j, path, (1, 4, 4), ops, 5000, (), meta)
     env.run_all(writes=True)
     bad = 0
     for sc in env.scripts:
@@ -1182,6 +1230,22 @@ def check_C07(run, replay=None):
     for sc in [x for x in env.scripts if x["name"].startswith("mx") and not x.get("raii")][: (12 if run.tier == "quick" else 120)]:
         for t in range(3):
             env.add_script(sc["name"].split("-")[0] + "f", sc["img"], sc["limits"], sc["ops"], sc["id_offset"], [20 + rng.below(700)], sc["meta"], raii=False)
+    # directed: the mode matrix on names that sit in the LAST cluster of a multi-cluster sub-directory
+    for j, gname in enumerate(["f16_min", "f16_spc2", "f32_min"]):
+        geo = fsgen.geometry(rng, None, [gname])
+        img, meta = fsgen.build_image(rng, geo, populate=2, big_dir=True)
+        path, dev = env.new_image(img, "deepmx%d" % j)
+        meta = dict(meta); meta["dev0"] = dev
+        hxn = fsgen.hx
+        lastn = "F%d.X" % (16 * meta["spc"] * 2 + 2)
+        ops = ["openvol %d -> $v" % meta["slot"], "openroot $v -> $r", "opendir $r %s -> $s" % hxn("SUB")]
+        k = 0
+        for nm in (lastn, "F%d.X" % (16 * meta["spc"] * 2 - 1), "ABSENT.Q"):
+            for md in fsgen.MODES:
+                k += 1
+                ops += ["open $s %s %s -> $m%d" % (hxn(nm), md, k), "close $m%d" % k]
+        ops += ["mkdir $s %s" % hxn(lastn), "delete $s %s" % hxn(lastn), "delete $s %s" % hxn(lastn), "iter $s"]
+        env.add_script("deepmx%03d" % j, path, (1, 4, 4), ops, 5000, (), meta)
     # directed: the creating modes on an EXISTING name (root and a multi-block sub-directory) with the fault at each
     # of the first device calls of the lookup
     for j, gname in enumerate(["f16_min", "f32_min"]):
@@ -1232,7 +1296,12 @@ def c07_oracle(sc):
         elif op[0] == "openroot" and okk and bind and vols.get(op[1]) == sc["meta"]["slot"]: dslot[bind] = "root"
         elif op[0] == "closedir" and okk: dslot.pop(op[1], None)
         elif op[0] == "opendir" and okk and bind and op[1] in dslot:
-            pass  # sub-directories are not followed by this oracle
+            # follow named sub-directories (the table must hold in multi-cluster directories too)
+            s11d = O.sfn_parse(O.unhexname(op[2]))
+            if s11d is not None and s11d[:2] not in (b". ", b".."):
+                hd = next((x for x in fatck.read_dir(pre, g, dir_blocks_of(pre, g, dslot[op[1]]), [], "") if x.name == s11d and not x.is_lfn), None)
+                if hd is not None and (hd.attr & 0x10):
+                    dslot[bind] = "root" if hd.cluster == 0 else hd.cluster
         elif op[0] == "close":
             if okk or e not in ("LockError", "BadHandle"):
                 fopen.pop(op[1], None)
@@ -1526,6 +1595,22 @@ def check_C09(run, replay=None):
     # FAT32 volumes whose only free clusters are numbered above 65535 (both halves of the start cluster matter)
     hi = fsgen.profile(weights=dict(mkdir=10, opendir=8, open=12, write=10, close=8, flush=4, delete=3, read=1, seek=1, bad=0, remount=0, io=0), max_write=1500)
     F.std_scenarios(env, rng, max(n // 5, 6), hi, nops=(20, 40), want=["f32_root5"], img_kw=dict(free_left=12), per_image=3)
+    # directed: a file in the SECOND cluster of a sub-directory is written and closed, then the directory grows again
+    # (creates until a further cluster is taken): the flushed file must stay listed and readable through every write
+    for j, gname in enumerate(["f16_min", "f16_spc2", "f32_min"]):
+        geo = fsgen.geometry(rng, None, [gname])
+        img, meta = fsgen.build_image(rng, geo, populate=1, big_dir=True)
+        path, dev = env.new_image(img, "regrow%d" % j)
+        meta = dict(meta); meta["dev0"] = dev
+        hxn = fsgen.hx
+        per = 16 * meta["spc"]
+        keep = "F%d.X" % (per + 2)                      # its entry lies in the second cluster of SUB
+        ops = ["openvol %d -> $v" % meta["slot"], "openroot $v -> $r", "opendir $r %s -> $s" % hxn("SUB"),
+               "open $s %s RWA -> $k" % hxn(keep), "write $k 700 3", "close $k"]
+        for i in range(per + 4):
+            ops += ["open $s %s RWC -> $g%d" % (hxn("G%d.N" % i), i), "close $g%d" % i]
+        ops += ["iter $s", "open $s %s RO -> $q" % hxn(keep), "read $q 2000", "close $q"]
+        env.add_script("regrow%03d" % j, path, (1, 4, 4), ops, 5000, (), meta)
     env.run_all(writes=True)
     bad = 0
     npoints = 0
@@ -1806,13 +1891,22 @@ def check_C16(run, replay=None):
                     nops=(14, 30), img_kw=dict(boundary=True), want=["f32_min", "f32_exact", "f32_staleused", "f16_min"], per_image=2)
     rollback_scripts(env, rng, 4 if run.tier == "quick" else 16, geos=("f32_min", "f32_exact"))
     # directed: every information-sector variant, allocate and free several clusters, flush and close the volume
-    for j, gname in enumerate(["f32_min", "f32_stale0", "f32_stalehigh", "f32_oor", "f32_unkcount", "f32_root5", "f32_exact"] * (1 if run.tier == "quick" else 4)):
-        geo = fsgen.geometry(rng, None, [gname])
+    for j, gname in enumerate(["f32_min", "f32_stale0", "f32_stalehigh", "f32_oor", "f32_unkcount", "f32_root5", "f32_exact", "f32_stalelast"] * (1 if run.tier == "quick" else 4)):
+        if gname == "f32_stalelast":
+            # the hint names the last cluster of the volume and that cluster is marked bad: all free clusters lie BELOW the hint
+            geo = ("f32_stalelast", dict(fat32=True, lba=1, spc=1, nclusters=65530, nfats=2, info="stalelast"))
+        else:
+            geo = fsgen.geometry(rng, None, [gname])
         img, meta = fsgen.build_image(rng, geo, populate=1, ensure_big=True)
+        if gname == "f32_stalelast":
+            meta["vol"].fat[meta["vol"].N + 1] = 0x0FFFFFF7
         path, dev = env.new_image(img, "info%d" % j)
         meta = dict(meta); meta["dev0"] = dev
         hx = fsgen.hx; bpc = meta["spc"] * 512
         ops = ["openvol %d -> $v" % meta["slot"], "openroot $v -> $r"]
+        if gname == "f32_stalelast":
+            # the FIRST allocation after the mount must already cope with the hint (nothing has lowered it yet)
+            ops += ["open $r %s RWC -> $w" % hx("WRAP.NEW"), "write $w %d 4" % (bpc + 1), "close $w", "mkdir $r %s" % hx("WRAPD")]
         if j % 2:
             ops += ["open $r %s RWT -> $t" % hx("BIGGER.BIN"), "close $t"]
         ops += ["delete $r %s" % hx("BIGGER.BIN"),
